@@ -72,8 +72,6 @@ Proof.
   rewrite E.
   destruct t as [|y t'].
   - cbn [h_write_list]. unfold h_upd. cbn [h_blocks]. f_equal.
-    apply upd_addr_ext. intros b0. rewrite putn_cons. unfold putn at 1. cbn [length rev_append Z.of_nat].
-    unfold put1, set_data. cbn. rewrite take_known_same, Z.add_0_r. reflexivity.
   - unfold h_write_list. rewrite (live_some _ _ _ Hb1 Hl).
     assert (E2 : (0 <=? off + 1) && (off + 1 + Z.of_nat (length (y :: t')) <=? b_size (put1 off x b)) = true).
     { apply andb_true_intro. change (b_size (put1 off x b)) with (b_size b). cbn [length] in *. split; apply Z.leb_le; lia. }
@@ -111,8 +109,8 @@ Proof.
   cbn [put_bytes]. unfold put_byte. cbn [length] in H. rewrite sub_size_t_le by lia.
   destruct t as [|y t'].
   - cbn [length] in H. assert (E : d_free d - 1 =? 0 = true) by (apply Z.eqb_eq; lia). rewrite E.
-    cbn [h_writes length Z.of_nat]. unfold adv. replace (d_free d - 1) with (d_free d - Z.of_nat 1) by lia.
-    reflexivity.
+    cbn [h_writes length]. change (Z.of_nat 1) with 1. unfold adv.
+    destruct (empty_output_buffer m _ _) as [[w1 d1] [st|]]; reflexivity.
   - assert (E : d_free d - 1 =? 0 = false) by (apply Z.eqb_neq; cbn [length] in H; lia). rewrite E.
     rewrite IH; [|discriminate|cbn [d_free length] in *; lia].
     cbn [w_heap set_heap d_next_base d_next_off h_writes]. rewrite set_heap_set_heap.
@@ -164,7 +162,8 @@ Proof.
   rewrite Hwl.
   change (mkD (d_buffer d) (d_bufsize d) (d_newbuffer d) (d_alloc d) (d_next_base d) (d_next_off d + n) (d_free d - n))
     with (adv d n).
-  rewrite <- Hcat at 3. rewrite put_bytes_app.
+  replace (put_bytes m xs w d) with (put_bytes m (xs1 ++ xs2) w d) by (rewrite Hcat; reflexivity).
+  rewrite put_bytes_app.
   cbn [d_free adv].
   destruct (d_free d - n =? 0) eqn:E.
   - apply Z.eqb_eq in E.
